@@ -189,4 +189,33 @@ def render (d : FileDoc) : List XmlEv :=
   [.other, .start .other [.ok [0x78#8] (some [0x79#8])], .start .other []]
     ++ (d.map renderElem).flatten ++ [.end_ .other, .end_ .other]
 
+-- documents the layout above can express ----------------------------------------------
+
+/-- an optional text element is only written for a non-empty text -/
+def optNonEmpty : Option Bytes → Bool
+  | some s => s != []
+  | none => true
+
+/-- sequence numbers are `usize` values -/
+def Inst.wf (i : Inst) : Bool := decide (i.seq < 2 ^ 64)
+
+def PduDoc.wf (p : PduDoc) : Bool :=
+  optNonEmpty p.shortName && decide (p.byteLength < 2 ^ 64) && p.signals.all Inst.wf
+
+def ExtDoc.wf (x : ExtDoc) : Bool :=
+  optNonEmpty x.messageType && optNonEmpty x.messageInfo && optNonEmpty x.applicationId
+    && optNonEmpty x.contextId
+
+def FrameDoc.wf (f : FrameDoc) : Bool :=
+  (f.shortName != []) && decide (f.byteLength < 2 ^ 64) && f.pdus.all Inst.wf
+    && (match f.ext with | some x => x.wf | none => true)
+
+/-- an element whose rendering is a well-formed FIBEX element (non-empty short names,
+    numbers within `usize`) -/
+def Elem.wf : Elem → Bool
+  | .pdu p => p.wf
+  | .frame f => f.wf
+  | .signal id _ => id != []
+  | .coding id _ => id != []
+
 end Dlt.Fibex.Spec
